@@ -36,6 +36,17 @@ CLAIMED["C20"] = (
     "Coq kernel; the regex translator in props/C20.py; TSan; harness/C20.cpp; a data race outside the modelled pools is found only if TSan observes it in the sampled runs; see DESIGN.md 4/C20",
     "DESIGN.md 4 (C20)")
 
+CLAIMED["C15"] = (
+    "Coq proof of refinement of the target-list table to a naming list (all histories) + extracted model/spec run against scripts on the real engine",
+    "Theorems C15_*: for every history of spawn / set targetname / rename / remove / $name, $name.size, $name[i] / command fan-out over $name (with handlers that rename, remove or destroy other members) the code-level model of TargetList/TargetComponent/OP_UN_TARGETNAME/ExecCmdMethodCommon equals the specification 'the live objects currently bearing the name, in naming order' (0 -> NULL, 1 -> the object, n -> the group; rename moves, destroy removes, a command reaches every snapshot member still alive exactly once). Field assignment to a group and uses of a stored $name value are refuted (three known findings, replayed on every run). Tied to the engine by differential execution of scripts under ASan.",
+    "Coq kernel; extraction; harness/C15.cpp + engine.h; a stored group is specified to keep denoting the objects it held when stored (the code aliases the live list: known findings); see DESIGN.md 4/C15 and 6",
+    "DESIGN.md 4 (C15)")
+CLAIMED["C16"] = (
+    "Coq proof that the response tables are the nearest declaring ancestor for every hierarchy + kernel-checked (vm_compute) comparison of the complete registry dumped from the binary built from the current tree + dispatch sweep",
+    "Theorems C16_*: for EVERY class list and declaration list: build_tables = nearest declaring ancestor (a null response hides the ancestors), event numbers are injective on (case-folded name, kind), 1..N without gaps, every spelling resolves case-insensitively, a filtered namespace and an unknown command are rejected for every class, end-to-end invoke = spec_invoke. C16_registry_tables_match_the_model re-proves by computation, on every run, that all 22 x 154 response-table entries, all numbers and the name table dumped from the binary equal the model. ~50000 real dispatch calls (class x spelling x kind x filter mode x entry point) are compared with the extracted specification.",
+    "Coq kernel (vm_compute for the registry comparison); the dump printed by harness/C16.cpp and its conversion in props/C16.py; host class family harness/C16_family.h; see DESIGN.md 4/C16",
+    "DESIGN.md 4 (C16)")
+
 NOT_YET = "no model, theorem and correspondence check has been built for this property yet (work in progress; see DESIGN.md 9 for the order of work)"
 
 
